@@ -162,7 +162,8 @@ class C04(runner.Check):
                      case, failure=exp[0] + "/" + got[0], kinds="%s+%s" % (oa[1], ob[1] if ob else "-"),
                      shape="%s|%s" % (_shape(oa), _shape(ob) if ob else "-"),
                      reg_over_var=_reg_over_var(oa) or (ob is not None and _reg_over_var(ob)),
-                     tail=(" as " in oa[0] and "RegularArray-tail" in oa[0]) or (ob is not None and "RegularArray-tail" in ob[0]))
+                     tail=(" as " in oa[0] and "RegularArray-tail" in oa[0]) or (ob is not None and "RegularArray-tail" in ob[0]),
+                     all_none=_all_none(oa[0]) or (ob is not None and _all_none(ob[0])))
 
     def replay(self, case):
         import install
@@ -188,6 +189,14 @@ def _is_bool(o):
     if kind == "ak":
         return refops._leaf_kind(T) == "bool"
     return isinstance(v, bool)
+
+
+def _all_none(text):
+    """operand description 'type:value as encoding': is the value a non-empty list of None only?"""
+    import re
+    v = text.split(":", 1)[1] if ":" in text else text
+    v = v.split(" as ")[0].strip()
+    return re.match(r"^\[None(, None)*\]$", v) is not None
 
 
 def _reg_over_var(o):
